@@ -416,13 +416,20 @@ static int writer_finish_section(struct reftable_writer *w)
 			strbuf_release(&idx[i].last_key);
 		}
 		reftable_free(idx);
+
+		/* Flush the last block of this level too, so the next level
+		 * (if any) has an entry for it. */
+		err = writer_flush_block(w);
+		if (err < 0)
+			return err;
+		if (w->index_len >= idx_len) {
+			/* Keys so large that an index block holds a single
+			 * entry: another level would not be any smaller. */
+			break;
+		}
 	}
 
 	writer_clear_index(w);
-
-	err = writer_flush_block(w);
-	if (err < 0)
-		return err;
 
 	bstats = writer_reftable_block_stats(w, typ);
 	bstats->index_blocks = w->stats.idx_stats.blocks - before_blocks;
